@@ -4,7 +4,6 @@ package main
 import (
 	"flag"
 	"fmt"
-	"hash/crc32"
 	"os"
 	"strconv"
 	"strings"
@@ -21,6 +20,7 @@ type state struct {
 	calls  uint64 // rr: value of the counter before the next call
 	counts []int32
 	seen   map[string]int // hash: address -> loop
+	hist   []int // rr: loops chosen since the counter was last set
 }
 
 var st state
@@ -37,6 +37,7 @@ func step(ws []string) string {
 		v, _ := strconv.ParseUint(ws[1], 10, 64)
 		st.lb.SetRR(v)
 		st.calls = v
+		st.hist = nil
 		return "ok"
 	case "addcount":
 		i, d := atoi(ws[1]), atoi(ws[2])
@@ -45,17 +46,39 @@ func step(ws []string) string {
 		return fmt.Sprintf("count=%d", st.lb.Count(i))
 	case "next":
 		addr := string(util.UnHex(ws[1]))
-		idx := st.lb.Next(addr)
+		idx := -1
+		func() {
+			defer func() {
+				if r := recover(); r != nil {
+					util.Fail(fmt.Sprintf("next(%q) with %d loops panicked: %v", addr, st.n, r))
+				}
+			}()
+			idx = st.lb.Next(addr)
+		}()
 		if idx < 0 || idx >= st.n {
 			util.Fail(fmt.Sprintf("next(%q) returned something that is not a registered loop (%d)", addr, idx))
 			return fmt.Sprintf("idx=%d", idx)
 		}
 		switch st.kind {
 		case "rr":
-			if want := int(st.calls % uint64(st.n)); idx != want {
-				util.Fail(fmt.Sprintf("round robin: call %d went to loop %d, want %d", st.calls, idx, want))
+			// cyclic: the first n assignments go to n different loops, assignment k+n goes where assignment k went
+			// (which loop comes first is the implementation's business; the model pins that down, not this oracle)
+			if h := st.hist; len(h) >= st.n {
+				if idx != h[len(h)-st.n] {
+					util.Fail(fmt.Sprintf("round robin: assignment %d went to loop %d, assignment %d before it to loop %d (n=%d)", len(h), idx, st.n, h[len(h)-st.n], st.n))
+				}
+			} else {
+				for _, j := range h {
+					if j == idx {
+						util.Fail(fmt.Sprintf("round robin: loop %d got a second connection before all %d loops had one", idx, st.n))
+					}
+				}
 			}
+			st.hist = append(st.hist, idx)
 			st.calls++
+			if st.calls == 0 { // the 64-bit counter wrapped (test hook setrr): the cycle restarts
+				st.hist = nil
+			}
 		case "lc":
 			for i, c := range st.counts {
 				if c < st.counts[idx] {
@@ -68,9 +91,7 @@ func step(ws []string) string {
 				util.Fail(fmt.Sprintf("source hash: %q went to loop %d before and %d now", addr, prev, idx))
 			}
 			st.seen[addr] = idx
-			if want := int(crc32.ChecksumIEEE([]byte(addr))) % st.n; idx != want {
-				util.Fail(fmt.Sprintf("source hash: %q -> %d, crc32 mod n = %d", addr, idx, want))
-			}
+			// which pure function is used is the implementation's business (the Lean model pins it to crc32 mod n)
 		}
 		return fmt.Sprintf("idx=%d", idx)
 	}
@@ -97,6 +118,15 @@ func addrOf(r *util.Rng) string {
 		b[i] = byte(r.Intn(256))
 	}
 	return string(b)
+}
+
+// addresses whose CRC-32 sits on the boundaries of the int conversions inside hash()
+var crcBoundary = []string{
+	"10.11.0.30:7612",    // 0x80000000
+	"10.13.5.40:8143",    // 0x00000000
+	"10.11.17.246:59516", // 0x80000001
+	"10.1.23.52:62215",   // 0x7fffffff
+	"10.11.49.232:26968", // 0xffffffff
 }
 
 func main() {
@@ -138,6 +168,9 @@ func main() {
 					fmt.Fprintf(&b, "addcount %d %d\n", j, d)
 				default:
 					a := addrOf(r)
+					if r.Intn(8) == 0 {
+						a = crcBoundary[r.Intn(len(crcBoundary))]
+					}
 					if len(addrs) > 0 && r.Intn(3) == 0 {
 						a = addrs[r.Intn(len(addrs))]
 					}
